@@ -120,7 +120,7 @@ fn mutations(v: &Value, ids: &[String], rng: &mut Rng, cap: usize) -> Vec<(Strin
         if parent_is_obj {
             let mut targets: Vec<String> = vec!["nonexistent".into()];
             if last.parse::<usize>().is_ok() {
-                targets.extend(["0", "1", "7", "99", "4294967296", "18446744073709551615", "-1", "x"].iter().map(|s| s.to_string()));
+                targets.extend(["0", "1", "2", "3", "4", "5", "6", "7", "8", "99", "4294967296", "18446744073709551615", "-1", "x"].iter().map(|s| s.to_string()));
             }
             if ids.contains(last) {
                 targets.extend(ids.iter().filter(|i| *i != last).take(4).cloned());
@@ -162,7 +162,7 @@ fn mutations(v: &Value, ids: &[String], rng: &mut Rng, cap: usize) -> Vec<(Strin
             }
             Value::Number(n) => {
                 let cur = n.as_u64();
-                for t in [0u64, 1, 2, 5, 6, 7, 31, 32, 255, 65535, 65536, 4294967295, 4294967296, u64::MAX] {
+                for t in [0u64, 1, 2, 3, 4, 5, 6, 7, 8, 31, 32, 255, 65535, 65536, 4294967295, 4294967296, u64::MAX] {
                     if Some(t) != cur {
                         let mut m = v.clone();
                         *get_mut(&mut m, p).unwrap() = json!(t);
@@ -387,6 +387,14 @@ fn structural<S: ShortGroupSignatureScheme>(em: &mut Emitter, rng: &mut Rng, sui
             Out::Ok(sch) => {
                 let r = call(|| Presentation::create(&scn.credentials, &sch, &scn.nonce));
                 em.count(&format!("create:{}", r.class()));
+                match create_line(&scn.credentials, &sch) {
+                    Some(line) => em.op(line, match &r {
+                        Out::Ok(_) => "true",
+                        Out::Err => "false",
+                        Out::Panic(_) => "panic",
+                    }),
+                    None => em.count("create:model-line-skipped(key != id)"),
+                }
                 match r {
                     Out::Panic(msg) => {
                         let (sig, at) = site_sig("create");
